@@ -171,15 +171,54 @@ def chooseGene (g : Nat) (st : St) : Except Err St :=
              util := st.util.set g (-1),
              slots := st.slots.map (Slot.bump g) }
 
-/-- `create_utility_array`: utility of gene `g` over the parent's pairs -/
+/-- `create_utility_array` for one block of pairs: what
+`up_mask_from_pair_idx_batch(pair_batch) + down_mask_from_pair_idx_batch(pair_batch)`
+adds to the utility of gene `g` -/
 def initUtil (slots : List Slot) (g : Nat) : Int :=
   (slots.map (fun s => ind (s.up.contains g) + ind (s.down.contains g))).sum
 
-def initState (nGenes : Nat) (pairs : List Pair) : St :=
+/-- `gb_size` handed to `create_utility_array` by `select_marker_genes_v2`
+(pinned against the source by `CTM/Generated/SelectionConsts.lean`) -/
+def gbSize : Nat := 10
+
+/-- `batch_size = max(1, np.round(gb_size*1024**3/(3*n_genes)).astype(int))`
+(the quotient is never half-way between two integers, so rounding to nearest
+is `floor(q + 1/2)`; `n_genes = 0` does not reach this point) -/
+def utilityBlock (gb nGenes : Nat) : Nat :=
+  max 1 ((2 * (gb * 1024 ^ 3) + 3 * nGenes) / (2 * (3 * nGenes)))
+
+/-- the slices `[pair0:pair1]` of `for pair0 in range(0, n_taxon, batch_size)`;
+the first argument is fuel (the list length suffices) -/
+def blockSlicesAux {α : Type} : Nat → Nat → List α → List (List α)
+  | 0, _, _ => []
+  | fuel + 1, bs, l =>
+    if l.isEmpty then [] else l.take bs :: blockSlicesAux fuel bs (l.drop bs)
+
+def blockSlices {α : Type} (bs : Nat) (l : List α) : List (List α) :=
+  blockSlicesAux l.length bs l
+
+/-- `create_utility_array`: `utility_sum` accumulated block by block -/
+def initUtilB (bs : Nat) (slots : List Slot) (g : Nat) : Int :=
+  ((blockSlices bs slots).map (fun blk => initUtil blk g)).sum
+
+/-- the initial arrays with the utility summed over all pairs at once -/
+def initStateWhole (nGenes : Nat) (pairs : List Pair) : St :=
   let slots := pairs.map (fun p => ({ down := p.down, up := p.up } : Slot))
   { slots := slots,
     util := (List.range nGenes).map (initUtil slots),
     chosen := [] }
+
+/-- the initial arrays as `create_utility_array` builds them: the parent's
+pairs are visited in blocks of `utilityBlock gbSize nGenes` pairs
+(`marker_census` is the list lengths, see `Slot.censusDown/Up`) -/
+def initStateB (bs nGenes : Nat) (pairs : List Pair) : St :=
+  let slots := pairs.map (fun p => ({ down := p.down, up := p.up } : Slot))
+  { slots := slots,
+    util := (List.range nGenes).map (initUtilB bs slots),
+    chosen := [] }
+
+def initState (nGenes : Nat) (pairs : List Pair) : St :=
+  initStateB (utilityBlock gbSize nGenes) nGenes pairs
 
 /-- `desperate_cases`: `0 < total_markers <= n_desperate` -/
 def Slot.desperate (n : Nat) (s : Slot) : Bool :=
